@@ -177,6 +177,11 @@ func specPlain4(p *packets.FrameParser) bool {
 
 //@ func (*tcpDriver).ReceiveProbe
 //@ safety C09 C08
+// the reply handed to the engine is exactly what the matcher decided about the packet just read: every packet that parses
+// is given to the matcher (nothing is skipped), and nothing else produces a result
+//@ ensures[C01+C02+C04+C05.recv.pass]  ncalls("(*tcpDriver).handleProbeLayers") == old(ncalls("(*tcpDriver).handleProbeLayers")) + 1 ==> ret0 == lastres("(*tcpDriver).handleProbeLayers", 0) && ret1 == lastres("(*tcpDriver).handleProbeLayers", 1)
+//@ ensures[C01+C04.recv.only]          ret0 != nil ==> ncalls("(*tcpDriver).handleProbeLayers") == old(ncalls("(*tcpDriver).handleProbeLayers")) + 1
+//@ ensures[C02.recv.all]               ncalls(ReadAndParse) == old(ncalls(ReadAndParse)) + 1 && lastres(ReadAndParse, 0) == nil ==> ncalls("(*tcpDriver).handleProbeLayers") == old(ncalls("(*tcpDriver).handleProbeLayers")) + 1
 //@ requires[pre.nonnil]     t != nil && t.source != nil && t.parser != nil && t.parser.parserv4 != nil && t.parser.parserv6 != nil && t.config != nil
 //@ requires[C10.recv.open]  selb(isOpen, ref(t.source))
 //@ requires[pre.sent]       len(t.sentProbes) >= 1
